@@ -61,7 +61,7 @@ func c13Lexical(t *rapid.T) *DCase {
 		case 0:
 			return ast.Str("a\\nb")
 		case 1:
-			return ast.Str("tab\\tx\\\\y")
+			return ast.Str(rapid.SampledFrom([]string{"tab\\tx\\\\y", "C:\\\\dir\\\\", "\\\\", "\\\\\\\\", "end\\n", "\\t", "a\\\\\\n"}).Draw(t, "escstr"))
 		case 2:
 			return ast.Str("it's")
 		case 3:
